@@ -198,7 +198,7 @@ pub fn run(tier: Tier) -> i32 {
                         let Some(f) = fin.first() else { continue };
                         replies.push(hex(pools.pick(owned[*f].3, ai as u16 * 16)));
                     }
-                    let c = SeqCase { seq: s.name.to_string(), cmd: cmd.clone(), replies, trailing: "061e016c".into(), chunks: if ai % 2 == 0 { vec![] } else { vec![1] }, ack: Some(a.to_string()) };
+                    let c = SeqCase { seq: s.name.to_string(), cmd: cmd.clone(), replies, trailing: "061e016c".into(), chunks: if ai % 2 == 0 { vec![] } else { vec![1] }, ack: Some(a.to_string()), write_limit: if (k + ai) % 4 == 3 { Some(2) } else { None } };
                     st.case(ai > 0, fnv(&serde_json::to_vec(&c).unwrap()));
                     st.class("via-sequence:acknowledgement-form-x-first-reply");
                     ctx.record(
